@@ -1,0 +1,188 @@
+//go:build verif
+// +build verif
+
+// Contracts for package txmgr, checked by /verif/cmd/govc (comment-only file; see /verif/DESIGN.md).
+package txmgr
+
+//@ func canonicalOutPoint
+//@   props C09 C01 C19
+//@   requires txHash != nil
+//@   ensures len(result) == 36 && fresh(result)
+//@   ensures bytesEq(result, 0, txHash, 0, 32)
+//@   ensures be32(result, 32) == index
+
+//@ func canonicalUnspentKey
+//@   props C01 C09 C19
+//@   requires txHash != nil
+//@   requires len(walletId) == 42
+//@   ensures len(result) == 78 && fresh(result)
+//@   ensures bytesEq(result, 0, walletId, 0, 42)
+//@   ensures bytesEq(result, 42, txHash, 0, 32)
+//@   ensures be32(result, 74) == index
+
+//@ func readCanonicalUnspentKey
+//@   props C01 C09 C19
+//@   requires op != nil
+//@   modifies op
+//@   ensures (err != nil) == (len(k) < 78)
+//@   ensures err == nil ==> bytesEq(op.Hash, 0, old(k), 42, 32) && op.Index == old(be32(k, 74))
+
+//@ func keyCredit
+//@   props C01 C09 C19
+//@   requires txHash != nil && block != nil
+//@   ensures len(result) == 76 && fresh(result)
+//@   ensures bytesEq(result, 0, txHash, 0, 32) && be64(result, 32) == block.Height
+//@   ensures bytesEq(result, 40, block.Hash, 0, 32) && be32(result, 72) == index
+
+//@ func keyDebit
+//@   props C01 C09 C19
+//@   requires txHash != nil && block != nil
+//@   ensures len(result) == 76 && fresh(result)
+//@   ensures bytesEq(result, 0, txHash, 0, 32) && be64(result, 32) == block.Height
+//@   ensures bytesEq(result, 40, block.Hash, 0, 32) && be32(result, 72) == index
+
+//@ func keyTxRecord
+//@   props C01 C09 C19
+//@   requires txHash != nil && block != nil
+//@   ensures len(result) == 72 && fresh(result)
+//@   ensures bytesEq(result, 0, txHash, 0, 32) && be64(result, 32) == block.Height
+//@   ensures bytesEq(result, 40, block.Hash, 0, 32)
+
+//@ func readRawCreditKey
+//@   props C01 C09 C19
+//@   requires cred != nil && cred.block != nil
+//@   modifies cred, cred.block
+//@   ensures (err != nil) == (len(k) < 76)
+//@   ensures err == nil ==> bytesEq(cred.outPoint.Hash, 0, old(k), 0, 32) && cred.block.Height == old(be64(k, 32))
+//@   ensures err == nil ==> bytesEq(cred.block.Hash, 0, old(k), 40, 32) && cred.outPoint.Index == old(be32(k, 72))
+
+//@ func readUnminedCreditKey
+//@   props C09 C19
+//@   requires cred != nil
+//@   modifies cred
+//@   ensures (err != nil) == (len(k) != 36)
+//@   ensures err == nil ==> bytesEq(cred.outPoint.Hash, 0, old(k), 0, 32) && cred.outPoint.Index == old(be32(k, 32))
+
+//@ func valueUnspent
+//@   props C01 C19
+//@   requires block != nil
+//@   ensures len(result) == 40 && fresh(result)
+//@   ensures be64(result, 0) == block.Height && bytesEq(result, 8, block.Hash, 0, 32)
+
+//@ func readBlockOfUnspent
+//@   props C01 C19
+//@   requires block != nil
+//@   modifies block
+//@   ensures (err != nil) == (len(v) < 40)
+//@   ensures err == nil ==> block.Height == old(be64(v, 0)) && bytesEq(block.Hash, 0, old(v), 8, 32)
+
+//@ func valueUnspentCredit
+//@   props C01 C09 C10 C19
+//@   requires cred != nil && validAmt(cred.amount)
+//@   ensures (err != nil) == (len(cred.scriptHash) != 32)
+//@   ensures err == nil ==> len(result) == 45 && fresh(result)
+//@   ensures err == nil ==> mathint(be64(result, 0)) == amt(cred.amount)
+//@   ensures err == nil ==> mathint(result[8]) == flagByte(false, cred.flags.Change, cred.flags.Class)
+//@   ensures err == nil ==> be32(result, 9) == cred.maturity && bytesEq(result, 13, cred.scriptHash, 0, 32)
+
+//@ define flagByte(spent, change, class) = (b2i(spent) + 2*b2i(change) + 4*b2i(class == ClassStakingUtxo) + 8*b2i(class == ClassBindingUtxo))
+
+//@ func readCreditValue
+//@   props C01 C09 C10 C19
+//@   requires cred != nil
+//@   modifies cred
+//@   ensures len(v) < 45 ==> err != nil
+//@   ensures len(v) >= 45 ==> (err == nil) == (mathint(be64(v, 0)) <= maxAmt() && mathdiv(mathint(v[8]), 4) % 4 != 3)
+//@   ensures err == nil ==> amt(cred.amount) == mathint(be64(v, 0)) && cred.maturity == be32(v, 9)
+//@   ensures err == nil ==> cred.flags.Spent == (mathint(v[8]) % 2 == 1) && cred.flags.Change == (mathdiv(mathint(v[8]), 2) % 2 == 1)
+//@   ensures err == nil ==> (cred.flags.Class == ClassStandardUtxo) == (mathdiv(mathint(v[8]), 4) % 4 == 0)
+//@   ensures err == nil ==> (cred.flags.Class == ClassStakingUtxo) == (mathdiv(mathint(v[8]), 4) % 4 == 1)
+//@   ensures err == nil ==> (cred.flags.Class == ClassBindingUtxo) == (mathdiv(mathint(v[8]), 4) % 4 == 2)
+//@   ensures err == nil ==> len(cred.scriptHash) == 32 && bytesEq(cred.scriptHash, 0, v, 13, 32)
+
+//@ func valueUnminedCreditFromMined
+//@   props C09 C19
+//@   ensures (err != nil) == (len(credValue) < 45)
+//@   ensures err == nil ==> len(result) == 45 && bytesEq(result, 0, credValue, 0, 45)
+
+//@ func readCreditSpender
+//@   props C01 C19
+//@   ensures (debitKey == nil) == (len(credValue) < 121)
+//@   ensures debitKey != nil ==> len(debitKey) == 76 && fresh(debitKey) && bytesEq(debitKey, 0, credValue, 45, 76)
+
+//@ func fetchTxRecordKeyFromRawCreditKey
+//@   props C01 C19
+//@   ensures (err != nil) == (len(k) < 72)
+//@   ensures err == nil ==> len(result) == 72 && bytesEq(result, 0, k, 0, 72)
+
+//@ func fetchRawCreditAmountSpent
+//@   props C01 C19
+//@   ensures len(v) < 45 ==> err != nil
+//@   ensures err == nil ==> amt(result0) == mathint(be64(v, 0)) && result1 == (mathint(v[8]) % 2 == 1)
+
+//@ func fetchRawCreditMaturityScriptHash
+//@   props C01 C19
+//@   ensures (err != nil) == (len(v) < 45)
+//@   ensures err == nil ==> result0 == be32(v, 9) && len(result1) == 32 && bytesEq(result1, 0, v, 13, 32)
+
+//@ func fetchNsUnspentValueFromRawCredit
+//@   props C01 C19
+//@   ensures (err != nil) == (len(k) < 76)
+//@   ensures err == nil ==> len(result) == 40 && bytesEq(result, 0, k, 32, 40)
+
+//@ func valueAddressRecord
+//@   props C12 C19
+//@   requires rec != nil
+//@   ensures len(result) == 8 && fresh(result) && be64(result, 0) == rec.blockHeight
+
+//@ func keyGameHistory
+//@   props C10 C19
+//@   requires history != nil && len(history.walletId) == 42
+//@   ensures len(result) == 88 && fresh(result)
+//@   ensures bytesEq(result, 0, history.walletId, 0, 42)
+//@   ensures mathint(result[42]) == b2i(history.isBinding) && mathint(result[43]) == b2i(history.withdrawn)
+//@   ensures bytesEq(result, 44, history.txhash, 0, 32) && be64(result, 76) == history.blockHeight && be32(result, 84) == history.vout
+
+//@ func keyUnminedGameHistory
+//@   props C10 C19
+//@   requires history != nil && len(history.walletId) == 42
+//@   ensures len(result) == 80 && fresh(result)
+//@   ensures bytesEq(result, 0, history.walletId, 0, 42)
+//@   ensures mathint(result[42]) == b2i(history.isBinding) && result[43] == 0
+//@   ensures bytesEq(result, 44, history.txhash, 0, 32) && be32(result, 76) == history.vout
+
+//@ func readGameHistory
+//@   props C10 C19
+//@   requires history != nil
+//@   modifies history
+//@   ensures (err != nil) == ((isUnmined && len(k) < 80) || (!isUnmined && len(k) < 88))
+//@   ensures err == nil ==> len(history.walletId) == 42 && bytesEq(history.walletId, 0, old(k), 0, 42)
+//@   ensures err == nil ==> history.isBinding == (mathint(k[42]) % 2 == 1) && history.withdrawn == (mathint(k[43]) % 2 == 1)
+//@   ensures err == nil ==> bytesEq(history.txhash, 0, old(k), 44, 32)
+//@   ensures err == nil && !isUnmined ==> history.blockHeight == be64(k, 76) && history.vout == be32(k, 84)
+//@   ensures err == nil && isUnmined ==> history.vout == be32(k, 76)
+
+//@ func keyBlockRecord
+//@   props C01 C19
+//@   ensures len(result) == 8 && fresh(result) && be64(result, 0) == height
+
+//@ func readTxRecordKey
+//@   props C01 C19
+//@   ensures (err != nil) == (len(k) < 72)
+//@   ensures err == nil ==> height == be64(k, 32) && len(blkHash) == 32 && bytesEq(blkHash, 0, k, 40, 32)
+
+//@ func readTxRecordLoc
+//@   props C01 C09 C19
+//@   ensures (err != nil) == (len(v) != 28)
+//@   ensures err == nil ==> result0 != nil && result1 != nil
+//@   ensures err == nil ==> result0.File == be32(v, 0) && result0.Offset == be64(v, 4) && result0.Length == be64(v, 12)
+//@   ensures err == nil ==> mathint(result1.TxStart) == mathint(be32(v, 20)) && mathint(result1.TxLen) == mathint(be32(v, 24))
+
+//@ func readWalletStatus
+//@   props C01 C08 C19
+//@   requires ws != nil
+//@   modifies ws
+//@   ensures (err != nil) == (len(k) != 42 || len(v) < 8)
+//@   ensures err == nil ==> ws.SyncedHeight == be64(v, 0) && ws.WalletID == strOf(k)
+//@   ensures err == nil && len(v) > 8 ==> ws.Flags == v[8]
+//@   ensures err == nil && len(v) == 8 ==> ws.Flags == old(ws.Flags)
